@@ -79,6 +79,11 @@ pub fn take_local_sink() -> Vec<Json> {
     LOCAL_SINK.with(|s| s.borrow_mut().take().unwrap_or_default())
 }
 
+/// Number of events currently held by the thread-local sink.
+pub fn local_sink_len() -> usize {
+    LOCAL_SINK.with(|s| s.borrow().as_ref().map(|v| v.len()).unwrap_or(0))
+}
+
 /// Drain the events of the current thread's sink without removing it.
 pub fn drain_local_sink() -> Vec<Json> {
     LOCAL_SINK.with(|s| {
